@@ -28,6 +28,9 @@ func vhC18Pool() {
 		if vBool("dialFails") {
 			return nil
 		}
+		if wait && vBool("dialSlow") {
+			time.Sleep(600 * time.Millisecond) // longer than a waiter is willing to wait
+		}
 		live++
 		if live > maxLive {
 			maxLive = live
@@ -86,11 +89,12 @@ func vhC18Pool() {
 		default:
 			okOutcome = false
 		}
-		if r.elapsed > 600*time.Millisecond {
-			okOutcome = false // nothing here takes longer than the wait timeout
+		if r.elapsed > 1300*time.Millisecond {
+			okOutcome = false // at most one slow dial of its own plus one wait timeout
 		}
 	}
 	vAssert("every-call-ends-with-a-connection-or-a-documented-error", okOutcome)
+	time.Sleep(time.Second) // dials started on behalf of waiters that gave up finish now
 	vAssert("idle-plus-lent-equals-count", hc.ConnsCount() == len(hc.conns) && hc.ConnsCount() == live)
 	hc.CloseIdleConnections()
 	closedAll := true
